@@ -183,31 +183,41 @@ Fixpoint search (fuel : nat) (name s : str) (rs : ranges) (pos : nat) : option n
 Definition replace_at (s : str) (p len : nat) (body : str) : str :=
   firstn p s ++ body ++ skipn (p + len) s.
 
-(* one pass of the for-loop over defines_: at most one replacement per macro, string ranges
-   are NOT recomputed inside the pass (they are recomputed after the pass) *)
-Fixpoint pass (t : table) (rs : ranges) (s : str) (changed : bool) : str * bool :=
+(* the inner while loop for one macro after the repair of findings C17-stale-string-ranges and C17-cap-100:
+   every whole-word occurrence outside string literals is replaced, scanning left to right, and the
+   string ranges are recomputed from the current text after each replacement. Each replacement
+   shortens the unscanned remainder by at least |name| >= 1, so fuel S(length s) is never exhausted. *)
+Fixpoint sweep (fuel : nat) (name body s : str) (pos : nat) (changed : bool) : str * bool :=
+  match fuel with
+  | 0 => (s, changed)
+  | S f =>
+      match search (S (List.length s)) name s (string_ranges s) pos with
+      | None => (s, changed)
+      | Some p => sweep f name body (replace_at s p (List.length name) body) (p + List.length body) true
+      end
+  end.
+
+(* one pass of the for-loop over defines_ *)
+Fixpoint pass (t : table) (s : str) (changed : bool) : str * bool :=
   match t with
   | [] => (s, changed)
   | m :: r =>
-      if mfn m then pass r rs s changed
+      if mfn m then pass r s changed
       else match mname m with
-           | [] => pass r rs s changed      (* an empty name makes the real loop spin; excluded by the harness *)
-           | _ => match search (S (List.length s)) (mname m) s rs 0 with
-                  | Some p => pass r rs (replace_at s p (List.length (mname m)) (mbody m)) true
-                  | None => pass r rs s changed
-                  end
+           | [] => pass r s changed      (* an empty name makes the real loop spin; excluded by the harness *)
+           | _ => let '(s', ch) := sweep (S (List.length s)) (mname m) (mbody m) s 0 changed in pass r s' ch
            end
   end.
 
-Fixpoint passes (n : nat) (t : table) (rs : ranges) (s : str) : str :=
+Fixpoint passes (n : nat) (t : table) (s : str) : str :=
   match n with
   | 0 => s
-  | S n' => let '(s', ch) := pass t rs s false in
-            if ch then passes n' t (string_ranges s') s' else s'
+  | S n' => let '(s', ch) := pass t s false in
+            if ch then passes n' t s' else s'
   end.
 
 Definition max_iterations := 100.
-Definition expand (t : table) (line : str) : str := passes max_iterations t (string_ranges line) line.
+Definition expand (t : table) (line : str) : str := passes max_iterations t line.
 
 (* ---------- decimal rendering of the line number (std::to_string) ---------- *)
 Definition digit (n : nat) : ascii := ascii_of_nat (48 + n).
